@@ -435,6 +435,46 @@ pub fn worker(w: &mut Worker) {
             }
         }
     }
+    // long files: every threshold size of lines, the one line that is not lower case (or does not parse)
+    // at the first, the middle, the last but one and the last line, or nowhere
+    {
+        let sizes: Vec<usize> = crate::util::with_thresholds_usize(w.tier.pick(vec![50, 3001, 7000], vec![50, 3001, 7000, 50_000]), w.tier.pick(8192, 65_536));
+        for &n in &sizes {
+            for bad in ["none", "first", "middle", "last-but-one", "last", "last-unparsable"] {
+                if !w.take() {
+                    continue;
+                }
+                let cj = json!({"kind": "lint-long", "lines": n, "bad": bad});
+                w.begin(|| cj.clone());
+                let text = long_lint_text(n, bad);
+                let file = dir.join("lint-long.ds");
+                std::fs::write(&file, &text).expect("write");
+                let d = match run_proc(&duck, &["-l", &file.to_string_lossy()], &dir) {
+                    Ok(d) => d,
+                    Err(e) => {
+                        w.fail("harness:spawn", &e, cj);
+                        continue;
+                    }
+                };
+                w.add_transitions(1);
+                let expect_ok = bad == "none";
+                let got_ok = d.code == Some(0);
+                if d.stdout.lines().any(|l| l.trim().starts_with("RUNS")) {
+                    w.fail("lint:script-was-run", &format!("-l ran the {} line file: {:?}", n, &d.stdout[..d.stdout.len().min(200)]), cj);
+                } else if got_ok != expect_ok {
+                    w.fail(
+                        if expect_ok { "lint:rejected-a-clean-file" } else if bad == "last-unparsable" { "lint:accepted-an-unparsable-file" } else { "lint:accepted-upper-case" },
+                        &format!("-l on a file of {} lines, bad line: {}: exit {:?}, expected {}", n, bad, d.code, if expect_ok { "acceptance" } else { "rejection" }),
+                        cj,
+                    );
+                } else if !got_ok && !d.stdout.contains("Error:") {
+                    w.fail("lint:no-error-message", &format!("-l on a file of {} lines, bad line: {}: output {:?}", n, bad, d.stdout), cj);
+                } else {
+                    w.pass(true, hash64(&("lint-long", got_ok, n.min(100), bad)));
+                }
+            }
+        }
+    }
     // files that include other files: run as a file and as text against the library, and linted (a
     // file whose includes parse and are all lower case is accepted; one that includes a file that
     // does not parse, or itself, is not)
@@ -647,6 +687,11 @@ pub fn replay(case: &Value) -> Result<String, String> {
             let b = run_proc(&duck, &["-l", &file], &dir)?;
             ProcOut { code: a.code, stdout: format!("{}\nlint exit {:?}: {}", a.stdout, b.code, b.stdout), stderr: String::new() }
         }
+        "lint-long" => {
+            let f = dir.join("lint-long.ds");
+            std::fs::write(&f, long_lint_text(case["lines"].as_u64().unwrap_or(1) as usize, case["bad"].as_str().unwrap_or("none"))).map_err(|e| e.to_string())?;
+            run_proc(&duck, &["-l", &f.to_string_lossy()], &dir)?
+        }
         "lint" => {
             let f = dir.join("lint.ds");
             std::fs::write(&f, case["text"].as_str().unwrap_or("")).map_err(|e| e.to_string())?;
@@ -670,11 +715,35 @@ pub fn replay(case: &Value) -> Result<String, String> {
     Ok(format!("exit {:?}\nstdout: {}", r.code, r.stdout.replace(&d, "<dir>")))
 }
 
+/// A file of `n` instruction lines, all lower case, except the one named by `bad`.
+fn long_lint_text(n: usize, bad: &str) -> String {
+    let at = match bad {
+        "first" => Some(0),
+        "middle" => Some(n / 2),
+        "last-but-one" => Some(n.saturating_sub(2)),
+        "last" | "last-unparsable" => Some(n - 1),
+        _ => None,
+    };
+    let mut text = String::new();
+    for i in 0..n {
+        if Some(i) == at {
+            if bad == "last-unparsable" {
+                text.push_str("echo \"unterminated\n");
+            } else {
+                text.push_str(&format!("Out{} = echo RUNS {}\n", i, i));
+            }
+        } else {
+            text.push_str(&format!("out{} = echo RUNS {}\n", i % 7, i));
+        }
+    }
+    text
+}
+
 pub fn crash_sig(_case: &Value, kind: &str) -> String {
     kind.to_string()
 }
 
-pub const RULE: &str = "57 scripts (succeeding, printing, failing by crash / unknown command / missing label / assert, exit with no value, 0, 3, -1, 255, 256, 257, 512, -256, 65536, i32::MAX, i32::MIN, abc, ' 3', a value beyond i32, every parse error kind, pre-processor print and missing include, output of child processes interleaved with the script's own, exit_on_error at top level, in a function and inside a script-implemented command) x invocation form {file argument, -e text, --eval text}: the duck executable built from /repo's working tree is run as a subprocess and compared with the library run by the harness in a second subprocess (default Env): exit status 0 exactly when the library run succeeds; stdout equals the library's stdout, followed on failure by 'Error: <display of the library error>'. Lint: label x command x output each in {absent, lower-case, Capitalised, mIxed_1, non-ASCII upper-case} x {parsable, with an unparsable later line} x {-l, --lint} (thorough: the line at the end, at the start and in the middle of the file): accepted exactly when the file parses and the three spellings are lower-case, never runs the script, prints 'Error:' on rejection. --version, --help, -h: exit 0 and the documented content. Thorough tier in addition: `exit N` for every N in -600..=600, and every script of 1..4 lines over a pool of 14 lines (printing, assigning, soft error, exit_on_error, failing command, unknown command, exit / exit 2 / exit 256, failed assert, forward goto, unterminated function, unparsable line, pre-processor print) closed by a label line. Scale cases (file form): a loop printing 5000 (thorough 100000) lines, a script file of that many lines, the same failing / not parsing on its last line (output and message must match to the byte). Every subprocess is killed after 20 s (reported as a violation when it is duck that does not exit). Includes: 11 files that include other files by absolute path (once, twice, diamonds, nested twice, broken, self-including) through the three run forms (against the library) and lint (accepted iff everything parses); 4 roots with relative includes started from 3 directories, one of which holds decoy files of the same relative names (run against the library; lint accepted iff the real files parse and are lower case). Named files: scripts (succeeding, failing, unparsable) under 13 bare names that spell options, option letters or words the tool knows (version, help, h, e, eval, l, lint, ...), given alone and with a further argument: run as files, against the library";
+pub const RULE: &str = "57 scripts (succeeding, printing, failing by crash / unknown command / missing label / assert, exit with no value, 0, 3, -1, 255, 256, 257, 512, -256, 65536, i32::MAX, i32::MIN, abc, ' 3', a value beyond i32, every parse error kind, pre-processor print and missing include, output of child processes interleaved with the script's own, exit_on_error at top level, in a function and inside a script-implemented command) x invocation form {file argument, -e text, --eval text}: the duck executable built from /repo's working tree is run as a subprocess and compared with the library run by the harness in a second subprocess (default Env): exit status 0 exactly when the library run succeeds; stdout equals the library's stdout, followed on failure by 'Error: <display of the library error>'. Lint: label x command x output each in {absent, lower-case, Capitalised, mIxed_1, non-ASCII upper-case} x {parsable, with an unparsable later line} x {-l, --lint} (thorough: the line at the end, at the start and in the middle of the file): accepted exactly when the file parses and the three spellings are lower-case, never runs the script, prints 'Error:' on rejection. --version, --help, -h: exit 0 and the documented content. Thorough tier in addition: `exit N` for every N in -600..=600, and every script of 1..4 lines over a pool of 14 lines (printing, assigning, soft error, exit_on_error, failing command, unknown command, exit / exit 2 / exit 256, failed assert, forward goto, unterminated function, unparsable line, pre-processor print) closed by a label line. Scale cases (file form): a loop printing 5000 (thorough 100000) lines, a script file of that many lines, the same failing / not parsing on its last line (output and message must match to the byte). Every subprocess is killed after 20 s (reported as a violation when it is duck that does not exit). Includes: 11 files that include other files by absolute path (once, twice, diamonds, nested twice, broken, self-including) through the three run forms (against the library) and lint (accepted iff everything parses); 4 roots with relative includes started from 3 directories, one of which holds decoy files of the same relative names (run against the library; lint accepted iff the real files parse and are lower case). Named files: scripts (succeeding, failing, unparsable) under 13 bare names that spell options, option letters or words the tool knows (version, help, h, e, eval, l, lint, ...), given alone and with a further argument: run as files, against the library Long files linted: every threshold size of lines up to 8193 (thorough 65537), the one bad line (upper-case output) first, in the middle, last but one, last, a last line that does not parse, or none.";
 pub const ASSUMPTIONS: &[&str] = &["scripts with time- or random-dependent output are not in the pool", "the reference is the same library linked into the harness (differential), so a defect shared by both is invisible here"];
 pub const EXHAUSTIVE: bool = true;
 pub const WALL_CAP_S: (u64, u64) = (58, 600);
